@@ -64,11 +64,42 @@ def model_summary(m, limit=40):
     return "; ".join(out)[:3000]
 
 
+def skolemize(fs):
+    """Replace existentials (incl. those of a negated universal goal) by skolem constants so that their witnesses are ground
+    terms visible to ground instantiation.  Equisatisfiable."""
+    g = z3.Goal()
+    for f in fs:
+        g.add(f)
+    try:
+        r = z3.Then(z3.Tactic("nnf"), z3.Tactic("snf"))(g)
+        out = []
+        for sub in r:
+            out.extend(list(sub))
+        if len(r) == 1:
+            return out
+    except z3.Z3Exception:
+        pass
+    return fs
+
+
 def discharge(ob, axioms, timeout_ms, model=None):
     fs = list(axioms) + list(ob.hyps) + [z3.Not(ob.goal)]
     if model is not None and hasattr(model, "ground_instances"):
+        fs = skolemize(fs)
         fs = fs + model.ground_instances(fs)
     v = check_sat(fs, timeout_ms)
+    if v.status != "unsat" and model is not None and hasattr(model, "quantified_axioms"):
+        # second pass: the algebra as quantified axioms, E-matching only (no model search): closes goals that need congruence
+        # between instances; a failure here leaves the first verdict (a candidate counter-model of the ground-instantiated VC)
+        t0 = time.time()
+        s2 = z3.Solver()
+        s2.set("smt.mbqi", False)
+        s2.set(timeout=min(int(timeout_ms), 5000))
+        for f in list(axioms) + list(model.quantified_axioms()) + list(ob.hyps) + [z3.Not(ob.goal)]:
+            s2.add(f)
+        if s2.check() == z3.unsat:
+            from .smt import Verdict
+            v = Verdict("unsat", "z3-ematch", v.seconds + time.time() - t0)
     status = {"unsat": "discharged", "sat": "open", "unknown": "unknown"}[v.status]
     return Result(ob.name, status, v.backend, v.seconds, ob.kind,
                   detail=(model_summary(v.model) if v.status == "sat" else v.reason), model=v.model)
